@@ -160,7 +160,7 @@ def items(src, m, lo, hi):
         i += 1
 
 
-def find_block(src, m, header_re, lo=0, hi=None):
+def find_block(src, m, header_re, lo=0, hi=None, has_fn=None):
     """Find the depth-0 item in src[lo:hi] whose header (text before its '{') matches header_re.
 
     Returns (item_start_after_attrs, open_brace, end).
@@ -178,6 +178,18 @@ def find_block(src, m, header_re, lo=0, hi=None):
             hits.append((s2, ob, e))
     if not hits:
         raise AnchorLost('no item with header /%s/' % header_re)
+    if len(hits) > 1 and has_fn:
+        # several blocks share the header (e.g. two `impl PdfString`): take the unique one that holds the fn
+        sel = []
+        for h in hits:
+            try:
+                find_fn(src, m, has_fn, h[1] + 1, h[2] - 1)
+                sel.append(h)
+            except AnchorLost:
+                pass
+        hits = sel
+        if not hits:
+            raise AnchorLost('no block /%s/ contains fn %s' % (header_re, has_fn))
     if len(hits) > 1:
         raise AnchorLost('%d items with header /%s/' % (len(hits), header_re))
     return hits[0]
